@@ -1,0 +1,23 @@
+//go:build verif
+
+package traversal
+
+import "sync/atomic"
+
+var verifYieldFunc atomic.Pointer[func(point int)]
+
+// Installs a function called at the two points in the wake-up protocol that sit between releasing
+// op.mu and blocking. nil removes it.
+func VerifSetYield(f func(point int)) {
+	if f == nil {
+		verifYieldFunc.Store(nil)
+		return
+	}
+	verifYieldFunc.Store(&f)
+}
+
+func verifYield(point int) {
+	if f := verifYieldFunc.Load(); f != nil {
+		(*f)(point)
+	}
+}
